@@ -2,7 +2,7 @@
    runRules) against the hand-written specification tables. *)
 From Coq Require Import List NArith Bool Arith Lia String.
 From RG.Ast Require Import Tree Walker WalkerProof WalkSpec WfCheck.
-From RG.Engine Require Import Dispatch.
+From RG.Engine Require Import Dispatch RunState MatchEnv.
 From RGW Require Import Gen_AstSchema Gen_Walker Gen_WalkTags Gen_WalkTables Inst_Walker.
 Import ListNotations.
 Local Open Scope N_scope.
@@ -126,6 +126,29 @@ Proof.
     now apply (proj1 (place_ok_dests _ _ _ _ _ _ gen_place_ok r Htag Hl)).
   - intros r Hr'. now apply Hrs.
 Qed.
+
+(* ---- what a rule's matcher runs with: the import table of its own group, a matcher state of its own ---- *)
+Definition gen_env_policy : write_policy :=
+  match policy_of_string gen_pattern_env_policy with Some p => p | None => WriteNever end.
+(* gogrepCompile builds CompileConfig.Imports for every compilation from the group it is handed (or stores it
+   unconditionally per group), and every call site -- rule patterns, Contains() sub-patterns, the template-variable
+   check -- hands in the group being loaded *)
+Lemma gen_pattern_env_own : gen_env_policy = WriteAlways /\ gen_pattern_env_group_is_loaded_group = true.
+Proof. vm_compute. auto. Qed.
+Lemma gen_compile_envs_spec : forall (R : Type) init (groups : list (imports * list R)),
+  compile_envs gen_env_policy init groups = spec_envs groups.
+Proof. intros R. exact (compile_envs_spec gen_env_policy (proj1 gen_pattern_env_own)). Qed.
+
+(* the two MatchNode call sites of the engine and the allocation each one's state goes back to *)
+Definition main_site : string := "use:runRules"%string.
+Definition sub_site : string := "use:makeVarContainsFilter"%string.
+Definition site_state (s : string) : string :=
+  match slookup gen_matchnode_sites s with Some h => origin 8 gen_matcher_state_flow h | None => s end.
+Lemma gen_matcher_states_distinct : states_distinct gen_matcher_state_flow gen_matchnode_sites main_site sub_site = true.
+Proof. vm_compute. reflexivity. Qed.
+Lemma gen_site_states_differ : site_state main_site <> site_state sub_site /\
+  is_alloc (site_state main_site) = true /\ is_alloc (site_state sub_site) = true.
+Proof. split; [vm_compute; discriminate|split; vm_compute; reflexivity]. Qed.
 
 (* ---- executable comparison of the model's reports with the engine's (correspondence files) ---- *)
 Definition rep3 := (N * N * N)%type.      (* rule index, start offset, end offset of the reported node *)
